@@ -262,6 +262,17 @@ func guard(c *caseJ, d []byte) []byte {
 	return out
 }
 
+// sweepCount draws a count from 0..130 with weight on the powers of two and their neighbours
+// (table sizes, pre-allocation hints and index guards sit there).
+var sweepPts = []int{0, 1, 2, 3, 4, 5, 7, 8, 9, 15, 16, 17, 31, 32, 33, 63, 64, 65, 66, 100, 127, 128, 129, 130}
+
+func sweepCount(r *vh.Rng) int {
+	if r.Chance(0.65) {
+		return sweepPts[r.Pick(len(sweepPts))]
+	}
+	return r.Between(0, 130)
+}
+
 func genOK(r *vh.Rng) *caseJ {
 	cfg, ascii := genCfgOK(r)
 	c := &caseJ{Mode: "ok", Cfg: cfg, InModel: true, ASCII: ascii, Reader: r.PickStr("full", "full", "full", "half", "one")}
@@ -286,6 +297,15 @@ func genOK(r *vh.Rng) *caseJ {
 	sharedName := nonCRLFName()
 	nseg := r.Between(1, 5)
 	maxElems, maxComps := 0, 0
+	// sweeps: the number of elements after the name (per segment, or one width for the whole case),
+	// of components of one repetition, of repetitions of one element, each over 0..130
+	sweepElems := r.Chance(0.3)
+	sharedWidth := -1
+	if sweepElems && r.Chance(0.5) {
+		sharedWidth = sweepCount(r)
+	}
+	sweepComps := cfg.Comp != nil && r.Chance(0.1)
+	sweepReps := cfg.Rep != nil && r.Chance(0.07)
 	for s := 0; s < nseg; s++ {
 		ls := lsegJ{Blanks: []bool{}}
 		if allCRLF(seg) && r.Chance(0.3) {
@@ -300,9 +320,20 @@ func genOK(r *vh.Rng) *caseJ {
 		if r.Chance(0.04) {
 			nel = r.Between(33, 40) // beyond defaultElemsPerSeg
 		}
+		if sweepElems {
+			nel = 1 + sweepCount(r)
+			if sharedWidth >= 0 {
+				nel = 1 + sharedWidth
+			}
+		}
+		wide := nel > 12
+		sweepAt := -1
+		if (sweepComps || sweepReps) && nel > 1 {
+			sweepAt = r.Between(1, nel-1)
+		}
 		longAt := -1
 		longN := 0
-		if r.Chance(0.25) {
+		if r.Chance(0.25) && !wide {
 			longAt, longN = r.Pick(nel), r.Between(bufSize/4, bufSize*3/4)
 			if r.Chance(0.08) {
 				longN = r.Between(300, 700)
@@ -312,12 +343,24 @@ func genOK(r *vh.Rng) *caseJ {
 			nrep := 1
 			if cfg.Rep != nil {
 				nrep = []int{1, 1, 1, 2, 3, 6}[r.Pick(6)]
+				if wide {
+					nrep = []int{1, 1, 1, 1, 1, 2}[r.Pick(6)]
+				}
+				if sweepReps && i == sweepAt {
+					nrep = 1 + sweepCount(r)
+				}
 			}
 			var el [][]string
 			for j := 0; j < nrep; j++ {
 				ncomp := 1
 				if cfg.Comp != nil {
 					ncomp = []int{1, 1, 2, 3, 4, 10}[r.Pick(6)]
+					if wide || nrep > 12 {
+						ncomp = []int{1, 1, 1, 1, 1, 2}[r.Pick(6)]
+					}
+					if sweepComps && i == sweepAt && j == 0 {
+						ncomp = 1 + sweepCount(r)
+					}
 				}
 				var rp []string
 				for k := 0; k < ncomp; k++ {
@@ -326,6 +369,9 @@ func genOK(r *vh.Rng) *caseJ {
 						long = longN
 					}
 					d := genData(r, c, long)
+					if (wide || nrep > 12 || ncomp > 12) && len(d) > 6 {
+						d = guard(c, d[:r.Between(0, 6)])
+					}
 					if i == 0 && j == 0 && k == 0 {
 						if withFull {
 							d = sharedName
@@ -364,19 +410,37 @@ func genOK(r *vh.Rng) *caseJ {
 	return c
 }
 
+// genDecls: element declarations that pick the first, the last and the beyond-last element /
+// component index of the widest segment as well as anything in between; duplicates included.
 func genDecls(r *vh.Rng, maxElems, maxComps int) []declJ {
 	n := r.Between(0, 6)
+	last := maxElems - 1 // the name is element 0
+	if last < 1 {
+		last = 1
+	}
 	var ds []declJ
 	for i := 0; i < n; i++ {
-		d := declJ{Index: r.Between(1, maxElems)}
-		if r.Chance(0.1) {
-			d.Index = maxElems + r.Between(0, 2)
-		}
-		if r.Chance(0.05) {
-			d.Index = 0
+		d := declJ{}
+		switch r.Pick(10) {
+		case 0, 1:
+			d.Index = 1
+		case 2, 3:
+			d.Index = last
+		case 4:
+			d.Index = last + 1 // beyond the last element
+		case 5:
+			d.Index = last + r.Between(1, 3)
+			if r.Chance(0.3) {
+				d.Index = 0 // the name element
+			}
+		default:
+			d.Index = r.Between(1, last)
 		}
 		if r.Chance(0.5) {
-			ci := []int{1, 1, 2, 2, 3, maxComps + 1}[r.Pick(6)]
+			ci := []int{1, 1, 2, 3, maxComps, maxComps, maxComps + 1, r.Between(1, maxComps+1)}[r.Pick(8)]
+			if ci < 1 {
+				ci = 1
+			}
 			d.Comp = &ci
 		}
 		if len(ds) > 0 && r.Chance(0.3) {
